@@ -15,6 +15,7 @@ EXPLANATION = (
 ASSUMPTIONS = ["clang's CFG (with implicit destructors) is a faithful over-approximation of the control flow",
                "the lock idioms in engine/kinds.py are the only ways these functions acquire or release mtx_",
                "detail::condition_variable::wait*/notify_one behave as decided under C02/C07"]
+THOROUGH_CONFIGS = [["-UNDEBUG", "-DPIKA_DEBUG"]]
 FLOORS = {"C06.R1": 8, "C06.R2": 4, "C06.R3": 2, "C06.R4": 4, "C06.R5": 6, "C06.R6": 6, "C06.R7": 5}
 
 INVALID = "pika::threads::detail::invalid_thread_id"
